@@ -3,6 +3,7 @@ package lfs
 import (
 	"strings"
 
+	"github.com/git-lfs/git-lfs/v3/git"
 	"github.com/git-lfs/git-lfs/v3/tools"
 )
 
@@ -128,4 +129,84 @@ func VerifC20_HookInstallFresh() {
 	verifCover("installed-twice")
 	verifAssert(ok2 && second == first, "installing twice equals installing once")
 	verifAssert(h.Uninstall() == nil && !verifFSExists(path), "uninstall after install removes the hook again")
+}
+
+// historical filter.lfs.* values written by earlier git-lfs versions (these
+// may be upgraded silently); stated here independently of lfs/attribute.go
+var verifHistorical = map[string][]string{
+	"clean":   {"git-lfs clean %f", "git-lfs clean -- %f"},
+	"smudge":  {"git-lfs smudge %f", "git-lfs smudge --skip %f", "git-lfs smudge --skip -- %f", "git-lfs smudge -- %f"},
+	"process": {"git-lfs filter", "git-lfs filter --skip", "git-lfs filter-process --skip", "git-lfs filter-process"},
+}
+
+// VerifC20_FilterConfig: install never replaces a differing filter.lfs.* value
+// that is neither unset nor one of git-lfs's own historical values, unless
+// forced; the conflict is reported; installing twice equals installing once.
+func VerifC20_FilterConfig() {
+	git.VerifStore = map[string]string{}
+	git.VerifWrites = nil
+	skipSmudge := verifChoose("skip.smudge", 2) == 1
+	attr := filterAttribute()
+	if skipSmudge {
+		attr = skipSmudgeFilterAttribute()
+	}
+	props := []string{"clean", "smudge", "process", "required"}
+	prop := props[verifChoose("property", len(props))]
+	key := "filter.lfs." + prop
+	want := attr.Properties[prop]
+	scopeFlag := []string{"--local", "--global", "--system", "--worktree"}[verifChoose("scope", 4)]
+	opt := &FilterOptions{GitConfig: git.NewConfig("", ""), Force: verifNondetBool("force"),
+		Local: scopeFlag == "--local", System: scopeFlag == "--system", Worktree: scopeFlag == "--worktree"}
+	// pre-existing value of that one key: unset, current, historical, or custom text
+	var before string
+	ups := verifHistorical[prop]
+	switch verifChoose("existing.kind", 4) {
+	case 0:
+		before = ""
+	case 1:
+		before = want
+	case 2:
+		if len(ups) == 0 {
+			verifAssume(false)
+		}
+		before = ups[verifChoose("historical", len(ups))]
+	case 3:
+		// custom: arbitrary printable text around nothing or around one of git-lfs's own command lines
+		pre := verifNondetString("custom.prefix")
+		suf := verifNondetString("custom.suffix")
+		verifAssume(len(pre) <= 12 && len(suf) <= 12)
+		verifAssumeAlphabet(pre, " ~")
+		verifAssumeAlphabet(suf, " ~")
+		mid := []string{"", want, "git-lfs smudge %f", "git-lfs clean %f"}[verifChoose("custom.embeds", 4)]
+		before = pre + mid + suf
+	}
+	if before != "" {
+		git.VerifStore[scopeFlag+" "+key] = before
+	}
+	isOurs := verifOr(before == "", before == want)
+	for _, u := range ups {
+		isOurs = verifOr(isOurs, before == u)
+	}
+	err := attr.Install(opt)
+	after := git.VerifStore[scopeFlag+" "+key]
+	if !opt.Force && !isOurs {
+		verifCover("custom-value-kept")
+		verifAssert(after == before, "a differing custom value is not replaced without --force")
+		verifAssert(err != nil, "the conflict is reported")
+		return
+	}
+	if !opt.Force && before != "" && before != want {
+		// a historical git-lfs value: upgraded silently, or kept and reported
+		verifCover("historical-value")
+		verifAssert((err == nil && after == want) || (err != nil && after == before), "a historical value is upgraded, or kept with the conflict reported")
+		return
+	}
+	verifCover("value-set")
+	verifAssert(err == nil && after == want, "unset, current or forced values become the current value")
+	for _, p := range props {
+		verifAssert(git.VerifStore[scopeFlag+" filter.lfs."+p] == attr.Properties[p], "all four filter settings are installed")
+	}
+	writes := len(git.VerifWrites)
+	verifAssert(attr.Install(opt) == nil && git.VerifStore[scopeFlag+" "+key] == want, "installing twice equals installing once")
+	_ = writes
 }
